@@ -27,6 +27,10 @@ type HistOpts struct {
 	// that only breaks beyond some count).
 	ManyPct int
 	ManyMax int
+	// HugePct: percent of histories of the "huge value" class: a short history
+	// (at most 6 records) in which one string in five is 66000..140000 bytes, so
+	// single page bodies exceed 64 KiB without many records.
+	HugePct int
 }
 
 // GenHistory draws a writer history from the batch-shape grammar: batch sizes
@@ -53,6 +57,20 @@ func GenHistory(r *Rng, o HistOpts) *WriterSpec {
 			o.Profile.MaxStr = 200
 		}
 		w.Large = true
+	}
+	if o.HugePct > 0 && !w.Large && r.Intn(100) < o.HugePct {
+		w.Huge = true
+		o.Profile.HugePct = 20
+		o.ManyPct = 0
+		if o.MaxOps > 6 {
+			o.MaxOps = 6
+		}
+		if o.MaxBatches > 2 {
+			o.MaxBatches = 2
+		}
+		if o.MinBatches < 1 {
+			o.MinBatches = 1
+		}
 	}
 	sh := GetShape(w.Shape)
 	nb := r.Range(o.MinBatches, o.MaxBatches)
